@@ -7,7 +7,7 @@ if ! git apply --check "$patch" 2>/dev/null; then
   if git apply --3way --check "$patch" 2>/dev/null; then echo "(3way)"; else echo "PATCH DOES NOT APPLY: $patch"; exit 3; fi
 fi
 git apply "$patch" || git apply --3way "$patch" || exit 3
-trap 'git -C /repo checkout -- . ; git -C /repo reset -q' EXIT
+trap 'git -C /repo reset -q --hard HEAD' EXIT
 cd /verif
 for id in "$@"; do
   out=$(/venv/bin/python checks/run.py "$id" --tier "${TIER:-quick}" 2>&1)
